@@ -35,6 +35,14 @@ static long n_malloc, n_calloc, n_realloc, n_free, n_time, n_moved, n_mkstemp;
 static int64_t epoch, tick;
 static int have_clock, have_pid, fake_pid;
 
+extern char **environ;
+static char *env_get(const char *n) { // the shim's own reader: env_get() below belongs to the simulated environment
+  size_t l = strlen(n);
+  for (char **e = environ; e && *e; e++)
+    if (!strncmp(*e, n, l) && (*e)[l] == '=') return *e + l + 1;
+  return NULL;
+}
+
 static uint64_t rnd(void) {
   uint64_t z = (rs += 0x9E3779B97F4A7C15ull);
   z = (z ^ (z >> 30)) * 0xBF58476D1CE4E5B9ull;
@@ -42,12 +50,13 @@ static uint64_t rnd(void) {
   return z ^ (z >> 31);
 }
 
+static long n_getenv_stat(void);
 static void write_stats(void) {
-  const char *p = getenv("ENVSIM_STATS");
+  const char *p = env_get("ENVSIM_STATS");
   if (!p || state != 1) return;
   char buf[256];
-  int n = snprintf(buf, sizeof buf, "malloc=%ld calloc=%ld realloc=%ld moved=%ld free=%ld clock_reads=%ld mkstemp=%ld arena_base_off=%lu junk=%u\n", n_malloc,
-                   n_calloc, n_realloc, n_moved, n_free, n_time, n_mkstemp, (unsigned long)0, junk);
+  int n = snprintf(buf, sizeof buf, "malloc=%ld calloc=%ld realloc=%ld moved=%ld free=%ld clock_reads=%ld mkstemp=%ld getenv_answered=%ld junk=%u\n", n_malloc,
+                   n_calloc, n_realloc, n_moved, n_free, n_time, n_mkstemp, n_getenv_stat(), junk);
   int fd = open(p, O_WRONLY | O_APPEND | O_CREAT, 0644);
   if (fd >= 0) {
     if (write(fd, buf, n) < 0) {}
@@ -64,7 +73,7 @@ static void __attribute__((noinline)) dirty_stack(unsigned char fill) {
 }
 
 static void decide(void) {
-  const char *s = getenv("ENVSIM_SEED");
+  const char *s = env_get("ENVSIM_SEED");
   const char *nm = program_invocation_short_name;
   if (!s || !nm || !strstr(nm, "chibicc")) {
     state = 2;
@@ -78,15 +87,15 @@ static void decide(void) {
   }
   off = (rnd() % (1 << 20)) & ~(size_t)15; // heap base moves by up to 1 MiB
   junk = (unsigned char)(rnd() | 1);
-  const char *e = getenv("ENVSIM_EPOCH");
+  const char *e = env_get("ENVSIM_EPOCH");
   if (e) {
     have_clock = 1;
     epoch = strtoll(e, 0, 0);
-    tick = getenv("ENVSIM_TICK") ? strtoll(getenv("ENVSIM_TICK"), 0, 0) : 0;
+    tick = env_get("ENVSIM_TICK") ? strtoll(env_get("ENVSIM_TICK"), 0, 0) : 0;
   }
-  if (getenv("ENVSIM_PID")) {
+  if (env_get("ENVSIM_PID")) {
     have_pid = 1;
-    fake_pid = atoi(getenv("ENVSIM_PID"));
+    fake_pid = atoi(env_get("ENVSIM_PID"));
   }
   state = 1;
   dirty_stack(junk);
@@ -240,9 +249,72 @@ clock_t clock(void) {
   return (clock_t)(now() % 100000) * 1000;
 }
 
+// Environment variables nobody told the harness about: with ENVSIM_GETENV=<seed> every lookup the COMPILER makes (libc's own
+// lookups do not come through here) is answered from the seed -- absent, or a made-up value -- whatever the real environment
+// holds. The unchanged compiler never asks; a compiler that starts to ask gets different answers in different environments.
+static long n_getenv;
+static char *fuzz_env(const char *name) {
+  char *v = env_get(name);
+  if (state != 1 || !name || !strncmp(name, "ENVSIM_", 7) || !strncmp(name, "LD_", 3)) return v;
+  const char *fz = env_get("ENVSIM_GETENV");
+  if (!fz || !strcmp(fz, "0")) return v;
+  n_getenv++;
+  uint64_t h = strtoull(fz, 0, 0) ^ 0xcbf29ce484222325ull;
+  for (const char *c = name; *c; c++) h = (h ^ (unsigned char)*c) * 0x100000001b3ull;
+  h ^= h >> 29;
+  if (h % 3 == 0) return NULL;
+  static char buf[8][96];
+  static int k;
+  char *b = buf[k++ % 8];
+  if (h % 3 == 1) snprintf(b, 96, "%llu", (unsigned long long)(h >> 8) % 100000);
+  else snprintf(b, 96, "/envsim/%llx/%s", (unsigned long long)(h >> 8) & 0xffff, name);
+  return b;
+}
+static long n_getenv_stat(void) { return n_getenv; }
+char *getenv(const char *name) { return fuzz_env(name); }
+char *secure_getenv(const char *name) { return fuzz_env(name); }
+
+// how many processors, which kernel, which limits: seeded as well (ENVSIM_IDS third field)
+#include <sys/resource.h>
+#include <sys/utsname.h>
+long sysconf(int name) {
+  static long (*real)(int);
+  if (!real) real = dlsym(RTLD_NEXT, "sysconf");
+  long v = state == 1 ? -1 : -1;
+  if (state == 1 && (name == _SC_NPROCESSORS_ONLN || name == _SC_NPROCESSORS_CONF)) {
+    const char *s = env_get("ENVSIM_IDS");
+    if (s && (s = strrchr(s, ':'))) return 1 + atol(s + 1) % 64;
+  }
+  (void)v;
+  return real(name);
+}
+int get_nprocs(void) { return (int)sysconf(_SC_NPROCESSORS_ONLN); }
+int get_nprocs_conf(void) { return (int)sysconf(_SC_NPROCESSORS_CONF); }
+int uname(struct utsname *u) {
+  static int (*real)(struct utsname *);
+  if (!real) real = dlsym(RTLD_NEXT, "uname");
+  int r = real(u);
+  const char *s = state == 1 ? env_get("ENVSIM_IDS") : NULL;
+  if (r == 0 && s && (s = strrchr(s, ':'))) {
+    long v = atol(s + 1);
+    snprintf(u->nodename, sizeof u->nodename, "host%ld", v % 1000);
+    snprintf(u->release, sizeof u->release, "%ld.%ld.0-sim", 3 + v % 4, v % 20);
+    snprintf(u->version, sizeof u->version, "#%ld SMP sim", v);
+  }
+  return r;
+}
+int getrlimit(__rlimit_resource_t res, struct rlimit *rl) {
+  static int (*real)(__rlimit_resource_t, struct rlimit *);
+  if (!real) real = dlsym(RTLD_NEXT, "getrlimit");
+  int r = real(res, rl);
+  const char *s = state == 1 ? env_get("ENVSIM_IDS") : NULL;
+  if (r == 0 && s && (s = strrchr(s, ':')) && rl->rlim_cur != RLIM_INFINITY) rl->rlim_cur >>= atol(s + 1) % 3; // what is REPORTED; the real limit stays
+  return r;
+}
+
 // identity of the user / machine / terminal, and kernel randomness: seeded per environment (ENVSIM_IDS="uid:tty:rand")
 static long ids_field(int k) {
-  const char *s = getenv("ENVSIM_IDS");
+  const char *s = env_get("ENVSIM_IDS");
   if (state != 1 || !s) return -1;
   for (; k > 0 && s; k--) { s = strchr(s, ':'); if (s) s++; }
   return s ? atol(s) : -1;
@@ -284,7 +356,7 @@ ssize_t getrandom(void *buf, size_t n, unsigned flags) {
 int mkstemp(char *tmpl) {
   static int (*real)(char *);
   if (!real) real = dlsym(RTLD_NEXT, "mkstemp");
-  const char *tag = getenv("ENVSIM_TMPTAG");
+  const char *tag = env_get("ENVSIM_TMPTAG");
   size_t n = strlen(tmpl);
   if (state != 1 || !tag || strlen(tag) != 6 || n < 6 || strcmp(tmpl + n - 6, "XXXXXX")) return real(tmpl);
   for (int tries = 0; tries < 100; tries++) {
